@@ -54,6 +54,10 @@ pub fn spec(prop: &str) -> Spec {
         "C03" => (vec![s("proxy:C03", 1)], 1200, 40000),
         "C04" => (vec![s("proxy:C04", 1)], 1200, 40000),
         "C05" => (vec![s("proxy:C05", 1)], 1200, 40000),
+        "C07" => (vec![s("proxy:C07", 1)], 1500, 60000),
+        "C09" => (vec![s("keeper:C09", 1)], 1000, 40000),
+        "C10" => (vec![s("keeper:C10", 1)], 1500, 60000),
+        "C11" => (vec![s("proxy:C11", 1)], 1000, 30000),
         "C14" => (vec![s("proxy:C14", 1)], 1200, 40000),
         "C15" => (vec![s("proxy:C15", 1)], 800, 20000),
         _ => (vec![], 0, 0),
